@@ -209,6 +209,13 @@ impl Engine for McfEngine {
     fn eval(&self, tape: &Tape) -> CaseOutcome {
         let mut o = CaseOutcome::new(tape.digest());
         let mut inst = decode_inst(tape, &self.cfg, "");
+        // one case in thirteen: the "staggered banks" family, in which the minimum fleet costs
+        // many vehicle-days more than a fleet with one more vehicle
+        let pr: &[u32] = tape.sec(S_PARAMS).first().map(|r| r.as_slice()).unwrap_or(&[]);
+        let banks = pick_w(f(pr, 21).rotate_left(16), &[12, 1]) == 1;
+        if banks {
+            make_banks(&mut inst, f(pr, 22), f(pr, 23));
+        }
         make_uncoupled(&mut inst);
         let input = inst.to_json();
         let cx = match sut::catch(|| Ctx::load(&input)) {
@@ -220,6 +227,9 @@ impl Engine for McfEngine {
         };
         let fl = &cx.flat;
         o.classes = inst_classes(fl).iter().map(|s| s.to_string()).collect();
+        if banks {
+            o.classes.push("staggered_banks".into());
+        }
         let solver = solver::min_cost_flow_solver::MinCostFlowSolver::initialize(cx.net.clone());
         let allot_raw = match sut::catch(|| solver.verif_maintenance_allotment()) {
             Ok(a) => a,
